@@ -124,7 +124,8 @@ def load_file(src_root, rel, modpath, cfg, counts, out):
                 counts['D2:mod ' + name] = 1
                 out.append(Line('', ('src', rel, lineno)))
                 continue
-            out.append(Line('%s%smod %s { #[allow(unused_imports)] use vstd::prelude::*; #[allow(unused_imports)] use crate::vf::*;' % (mm.group(1), mm.group(2), name), ('src', rel, lineno)))
+            bu = '' if (modpath + [name])[0] == 'dcs' else ' broadcast use {crate::dcs::group_dcs_params, crate::vf::group_trace};'
+            out.append(Line('%s%smod %s { #[allow(unused_imports)] use vstd::prelude::*; #[allow(unused_imports)] use crate::vf::*;%s' % (mm.group(1), mm.group(2), name, bu), ('src', rel, lineno)))
             load_file(src_root, found[0], modpath + [name], cfg, counts, out)
             out.append(Line('%s}' % mm.group(1), ('src', rel, lineno)))
             continue
@@ -170,8 +171,8 @@ def rewrite_mut_self(text, counts):
 
 REGEX_RULES = [
     ('R4:const-slice-static', r"const (\w+): &\[", r"const \1: &'static ["),
+    ('R1:map_err-into', r"\.map_err\(Into::into\)", r".map_err(|e: DI::Error| -> (r: crate::models::ModelInitError<DI::Error>) ensures r == crate::models::ModelInitError::<DI::Error>::Interface(e) { crate::models::ModelInitError::Interface(e) })"),
     ('R1:map_err-eta', r"map_err\(((?:\w+::)+\w+)\)", r"map_err(|e| \1(e))"),
-    ('R1:map_err-into', r"\.map_err\(Into::into\)", r".map_err(|e| crate::models::ModelInitError::Interface(e))"),
     ('R2:closure-wildcard', r"\|_\|", r"|_u|"),
     ('R5:sized', r"pub trait InterfacePixelFormat<Word> \{", r"pub trait InterfacePixelFormat<Word>: Sized {"),
     ('R11:to_be_bytes', r"&self\.(\w+)\.to_be_bytes\(\)", r"&crate::vf::u16_to_be_bytes(self.\1)"),
@@ -205,6 +206,46 @@ def rewrite_derives(text, counts):
     return re.sub(r'#\[derive\(([^)]*)\)\]', repl, text)
 
 
+def rewrite_question_mark(text, counts):
+    """R14: in builder.rs and models/*, where `?` converts the error type through a user `From` impl, statements
+    `[let PAT =] EXPR?;` become Rust's documented desugaring
+    `[let PAT =] match EXPR { Ok(v) => v, Err(e) => return Err(From::from(e)) };` (this Verus treats the conversion
+    hidden inside `?` as opaque, the explicit call gets the `From` specification).  Line preserving."""
+    m = rsscan.mask(text)
+    _, mods, _, _ = rsscan.scan_items(text, m)
+    ranges = [(o, c) for k, o, c in mods if k == 'builder' or k.startswith('models::')]
+    edits = []
+    for mm in re.finditer(r'\?\s*;', m):
+        q = mm.start()
+        if not any(o < q < c for o, c in ranges):
+            continue
+        # statement start: scan back to the previous ; { } at depth 0
+        depth = 0
+        i = q - 1
+        while i >= 0:
+            ch = m[i]
+            if ch in ')]':
+                depth += 1
+            elif ch in '([':
+                depth -= 1
+            elif depth == 0 and ch in ';{}':
+                break
+            i -= 1
+        st = i + 1
+        while m[st] in ' \t\n':
+            st += 1
+        stmt = text[st:q]
+        lm = re.match(r'let\s+[^=]+=\s*', m[st:q])
+        es = st + (lm.end() if lm else 0)
+        if re.match(r'(return|if|match|while|for|loop)\b', m[es:q]):
+            continue
+        edits.append((es, q))
+    for es, q in reversed(edits):
+        text = text[:es] + 'match ' + text[es:q] + ' { Ok(v__) => v__, Err(e__) => return Err(core::convert::From::from(e__)) }' + text[q + 1:]
+        counts['R14:question-mark-desugared'] = counts.get('R14:question-mark-desugared', 0) + 1
+    return text
+
+
 def apply_rewrites(lines, counts, extra_rules=()):
     text = '\n'.join(l.text for l in lines)
     n0 = text.count('\n')
@@ -214,6 +255,7 @@ def apply_rewrites(lines, counts, extra_rules=()):
         text, k = re.subn(a, b, text)
         if k:
             counts[name] = counts.get(name, 0) + k
+    text = rewrite_question_mark(text, counts)
     if text.count('\n') != n0:
         raise Undecided('internal: a rewrite changed the line count')
     for l, t in zip(lines, text.split('\n')):
@@ -630,7 +672,7 @@ def extract(repo, verif, cfg, extra_external=()):
     body = splice(lines, contracts, injections, counts, report, externals)
     prelude = open(os.path.join(verif, 'contracts', 'prelude.rs')).read().split('\n')
     head = ['#![allow(unused_imports, dead_code, unused_variables, unused_mut, unused_assignments, unused_parens, non_snake_case)]',
-            'use vstd::prelude::*;', 'verus! {', 'global size_of usize == 8;', '#[allow(unused_imports)] use crate::vf::*;', 'broadcast use crate::dcs::group_dcs_params;']
+            'use vstd::prelude::*;', 'verus! {', 'global size_of usize == 8;', '#[allow(unused_imports)] use crate::vf::*;', 'broadcast use {crate::dcs::group_dcs_params, crate::vf::group_trace};']
     out = [Line(t, ('gen', 'header')) for t in head]
     out += [Line(t, ('gen', 'prelude.rs:%d' % (i + 1))) for i, t in enumerate(prelude)]
     out += body
